@@ -224,6 +224,9 @@ func (c *Compiler) tagRef(path, name string) {
 	c.RefTags = append(c.RefTags, RefTag{File: f, Path: path, Name: name})
 }
 
+// TagRef records a package-qualified reference built outside the compiler (injected constructs).
+func (c *Compiler) TagRef(path, name string) { c.tagRef(path, name) }
+
 func (c *Compiler) selector(e *ast.SelectorExpr) {
 	if id, ok := e.X.(*ast.Ident); ok {
 		if pn, ok := c.info.Uses[id].(*types.PkgName); ok {
